@@ -182,6 +182,12 @@ def mutations(draw, spec, lay, rendered, max_ops=4, min_ops=0,
             elif to == 'dir' and draw(st.booleans()):
                 op['child'] = 'child'
             ops.append(op)
+        elif kind == 'file-to-dir' and files:
+            f = draw(st.sampled_from(files))
+            op = {'op': 'retype', 'p': f['p'], 'to': 'dir'}
+            if draw(st.integers(0, 3)) != 0:
+                op['child'] = 'child'
+            ops.append(op)
         elif kind == 'dir-to-file' and len(dirs) > 1:
             d = draw(st.sampled_from(dirs[1:]))
             ops.append({'op': 'retype', 'p': d, 'to': 'file'})
